@@ -148,7 +148,7 @@ pub fn witness_json(prop: &str, profile: &str, cs: u64, variant: usize, thorough
         jstr(prop),
         jstr(v.rule),
         jstr(&v.sig),
-        jstr(if oracle::ENGINE_MT { "L2-mt" } else { "L1-vexec" }),
+        jstr(if oracle::ENGINE_MT { "L2-mt" } else if cfg!(debug_assertions) { "L1-vexec" } else { "L1-vexec-release" }),
         jstr(profile),
         cs,
         variant,
